@@ -75,6 +75,7 @@ def campaign(pid, tier, seed):
         add(R.gen_history, 130 if q else 2500, "C05")
         add(R.gen_bigbuf, 20 if q else 300)
         add(R.gen_blocked_slot, 6 if q else 60)
+        add(R.gen_gz_content, 1 if q else 12, "only")      # a rotated file of several MiB goes through compression
     elif pid == "C06":
         add(R.gen_history, 110 if q else 2200, "C06")
         add(R.gen_index_crossing, 12 if q else 120)
@@ -85,7 +86,9 @@ def campaign(pid, tier, seed):
         add(R.gen_bigbuf, 25 if q else 400)
     elif pid == "C08":
         add(R.gen_history, 70 if q else 1200, "C08")
-        add(R.gen_gz_content, 24 if q else 400, not q)
+        add(R.gen_gz_content, 22 if q else 400, not q)
+        if q:
+            add(R.gen_gz_content, 2, "only")
     elif pid == "C09":
         add(R.gen_history, 130 if q else 2500, "C09")
         add(R.gen_index_crossing, 6 if q else 60)
